@@ -247,6 +247,7 @@ psf_save_write_chunk (WRITE_CHUNKS * pchk, const SF_CHUNK_INFO * chunk_info)
 			} else {
 			pchk->chunks = new_chunks;
 			} ;
+		pchk->count = new_count ;
 		} ;
 
 	len = chunk_info->datalen ;
